@@ -184,7 +184,7 @@ def main():
     # ---- aggregate
     incon = []
     tot = {'paths': 0, 'steps': 0, 'obligations': 0, 'discharged': 0, 'assert_queries': 0, 'feas_queries': 0, 'solver_time': 0.0, 'nontrivial': 0}
-    viols = []; samples = []; coverage = {}; outcomes = {}; smt2 = []
+    viols = []; lemma_viols = []; samples = []; coverage = {}; outcomes = {}; smt2 = []
     jobsum = []
     for r in results:
         j = r['job']
@@ -196,6 +196,7 @@ def main():
         if r.get('vacuous'): incon.append('vacuous pre-state in job ' + tag)
         for k in tot: tot[k] += r.get(k, 0)
         for v in r.get('violations', []): v['job'] = tag; viols.append(v)
+        for v in r.get('lemma_violations', []): v['job'] = tag; lemma_viols.append(v)
         samples += r.get('samples', [])[:1]
         for k, v in r.get('coverage', {}).items():
             key = '%s:%s' % (j.get('op', j.get('name')), k)
@@ -236,8 +237,30 @@ def main():
             else: confirmed.append((v, path, names))
         else:
             unconfirmed.append((v, path, status))
+    # supporting invariant broken (natively confirmed): withhold the verdict unless this property itself has a confirmed violation
+    seen_l = set()
+    for v in lemma_viols:
+        key = (v['op'], tuple(sorted(set(n.split('[')[0] for n in v['checks']))))
+        if key in seen_l or len(seen_l) >= 3: continue
+        seen_l.add(key)
+        owner = v['checks'][0].split('.')[0]
+        st_, det_ = confirm_mutator(owner, v)
+        if st_ == 'reproduced':
+            incon.append('supporting invariant clause %s (property %s) is broken by %s (role %s, natively reproduced): the inductive argument for %s assumes it, verdict withheld - see ./check %s'
+                         % (', '.join(key[1]), owner, v['op'], v.get('role'), prop, owner))
     for (v, path, status) in unconfirmed:
         incon.append('counterexample for %s (%s, role %s) did not reproduce natively (%s): %s' % (v['op'], v['checks'][0], v.get('role'), status, path))
+    nval = 0
+    try:
+        import validate
+        nval = 0
+        for (cfg_, feat_), prog_ in sorted(PROGS.items()):
+            if feat_ != 'std': continue
+            n_, valerr = validate.run(prog_, tier, seed, profile=cfg_)       # dev MIR <-> dev build, release MIR <-> release build
+            nval += n_
+            for e_ in valerr: incon.append('translator validation mismatch (%s): %s' % (cfg_, e_))
+    except ImportError:
+        pass
     # ---- evidence
     fh = {}
     for key, txt in MIRTEXT.items():
@@ -245,7 +268,7 @@ def main():
     ev = {
         'property_id': prop, 'tier': tier, 'seed': seed, 'level': 'model_checking',
         'coverage': {
-            'states': max(tot['paths'], 0), 'transitions': tot['steps'], 'traces_validated_against_impl': 0,
+            'states': max(tot['paths'], 0), 'transitions': tot['steps'], 'traces_validated_against_impl': nval,
             'samples': samples[:6] or [{'note': 'no sample'}],
             'obligations': tot['obligations'], 'discharged': tot['discharged'],
             'assertion_queries': tot['assert_queries'], 'feasibility_queries': tot['feas_queries'],
@@ -271,13 +294,6 @@ def main():
         'wall_s': round(time.time() - t0, 2),
         'violations': len(confirmed),
     }
-    try:
-        import validate
-        nval, valerr = validate.run(PROGS.get(('dev', 'std')) or list(PROGS.values())[0], tier, seed)
-        ev['coverage']['traces_validated_against_impl'] = nval
-        for e_ in valerr: incon.append('translator validation mismatch: ' + e_)
-    except ImportError:
-        pass
     os.makedirs(os.path.join(VERIF, 'evidence'), exist_ok=True)
     json.dump(ev, open(os.path.join(VERIF, 'evidence', prop + '.json'), 'w'), indent=1, default=str)
     # ---- verdict
